@@ -376,6 +376,11 @@ jsoncons::expected<void,std::error_code> parse_primitive(jsoncons::span<char> to
         }
     }
 
+    if (num_str.empty())
+    {
+        // No digits before the exponent ("e5", "-E3"): not a number
+        not_a_number = true;
+    }
     if (not_a_number)
     {
         visitor.string_value(jsoncons::string_view(token.data(), token.size()));
@@ -386,7 +391,13 @@ jsoncons::expected<void,std::error_code> parse_primitive(jsoncons::span<char> to
     {
         std::size_t exponent;
         auto r = dec_to_integer(exponent_str.data(), exponent_str.size(), exponent);
-        JSONCONS_ASSERT(r);
+        if (!r || exponent > 1024)
+        {
+            // Beyond the range of a double: the decimal point is not shifted through
+            // that many digits, the token is kept as text
+            visitor.string_value(jsoncons::string_view(token.data(), token.size()));
+            return result_type{};
+        }
 
         std::size_t n = num_str.size();
 
